@@ -20,18 +20,20 @@ type Violation struct {
 
 // Result is what one worker (or one replay) reports.
 type Result struct {
-	Property     string           `json:"property"`
-	Start, Next  int64            // case index range covered [Start, Next) restricted to this worker's residue
-	Done         bool             `json:"done"`
-	Evaluations  int64            `json:"evaluations"`
-	NonTrivial   []uint64         `json:"nontrivial_hashes"`
-	Hist         map[string]int64 `json:"hist"`
-	Violations   []Violation      `json:"violations"` // capped per class
-	ViolCount    map[string]int64 `json:"viol_count"` // class (or "sig:<sig>") -> count
-	Samples      []any            `json:"samples"`
-	Aborted      []Violation      `json:"aborted"` // cases that ended in an unexpected Go panic (not judged by this property)
-	AbortedCount int64            `json:"aborted_count"`
-	Notes        []string         `json:"notes,omitempty"`
+	Property     string              `json:"property"`
+	Start, Next  int64               // case index range covered [Start, Next) restricted to this worker's residue
+	Done         bool                `json:"done"`
+	Evaluations  int64               `json:"evaluations"`
+	NonTrivial   []uint64            `json:"nontrivial_hashes"`
+	Hist         map[string]int64    `json:"hist"`
+	Violations   []Violation         `json:"violations"` // capped per class
+	ViolCount    map[string]int64    `json:"viol_count"` // class (or "sig:<sig>") -> count
+	Samples      []any               `json:"samples"`
+	Aborted      []Violation         `json:"aborted"` // cases that ended in an unexpected Go panic (not judged by this property)
+	AbortedCount int64               `json:"aborted_count"`
+	Notes        []string            `json:"notes,omitempty"`
+	Sets         map[string][]uint64 `json:"sets,omitempty"` // named sets of hashes (e.g. interleaving signatures), counted distinct by the parent
+	setAcc       map[string]map[uint64]struct{}
 }
 
 // Recorder collects observations inside a worker.
@@ -43,6 +45,7 @@ type Recorder struct {
 	CurIdx     int64
 	perClass   map[string]int
 	MaxSamples int
+	sets       map[string]map[uint64]struct{}
 }
 
 func NewRecorder(prop string, curPath string) *Recorder {
@@ -89,6 +92,17 @@ func (r *Recorder) NonTrivial(h uint64) {
 	}
 }
 
+// Distinct adds a hash to a named set (the parent reports the number of distinct members).
+func (r *Recorder) Distinct(name string, h uint64) {
+	if r.sets == nil {
+		r.sets = map[string]map[uint64]struct{}{}
+	}
+	if r.sets[name] == nil {
+		r.sets[name] = map[uint64]struct{}{}
+	}
+	r.sets[name][h] = struct{}{}
+}
+
 func (r *Recorder) Sample(s any) {
 	if len(r.res.Samples) < r.MaxSamples {
 		r.res.Samples = append(r.res.Samples, s)
@@ -123,6 +137,12 @@ func (r *Recorder) Result() *Result {
 		r.res.NonTrivial = append(r.res.NonTrivial, h)
 	}
 	sort.Slice(r.res.NonTrivial, func(i, j int) bool { return r.res.NonTrivial[i] < r.res.NonTrivial[j] })
+	r.res.Sets = map[string][]uint64{}
+	for name, set := range r.sets {
+		for h := range set {
+			r.res.Sets[name] = append(r.res.Sets[name], h)
+		}
+	}
 	return &r.res
 }
 
@@ -173,4 +193,24 @@ func (m *Result) Merge(o *Result, seen map[uint64]struct{}) {
 		}
 	}
 	m.Notes = append(m.Notes, o.Notes...)
+	if m.setAcc == nil {
+		m.setAcc = map[string]map[uint64]struct{}{}
+	}
+	for name, hs := range o.Sets {
+		if m.setAcc[name] == nil {
+			m.setAcc[name] = map[uint64]struct{}{}
+		}
+		for _, h := range hs {
+			m.setAcc[name][h] = struct{}{}
+		}
+	}
+}
+
+// SetSizes: number of distinct members per named set after merging.
+func (m *Result) SetSizes() map[string]int {
+	out := map[string]int{}
+	for name, s := range m.setAcc {
+		out[name] = len(s)
+	}
+	return out
 }
